@@ -431,8 +431,12 @@ def A5_overlap_guard(repo, clause):
         if ok:
             t, dis, flags = found
             other = _disjoint_other(dis, D)
-            same_set = other is not None and (nf_expanded(fn, other) == nf_expanded(fn, L) or
-                                              contains_nf(nf_expanded(fn, L), nf_expanded(fn, other)))
+            def _unset(e):
+                e = expand(fn, e)
+                while isinstance(e, ast.Call) and call_name(e) in ("set", "frozenset", "list", "tuple") and len(e.args) == 1:
+                    e = expand(fn, e.args[0])
+                return nf(e)
+            same_set = other is not None and _unset(other) == _unset(L)
             ok = same_set
             detail = "update guarded by %s; tested set %s the set that is added (%s)" % (
                 ast.unparse(t), "is" if same_set else "IS NOT", ast.unparse(L))
@@ -598,17 +602,27 @@ def A6_rotation_gate(repo, clause):
     fn = repo.fn("find_pattern_in_structure")
     cfg = fn.cfg
     obs = []
-    gates = [c for c in calls_in(fn) if call_name(c) == "allclose"]
-    if len(gates) != 1:
-        raise AnalysisError("A6: expected one rotation re-check (allclose) in find_pattern_in_structure, found %d" % len(gates))
-    gate = gates[0]
-    # accepted list: appends guarded (positively) by the gate
+    # the checked copy: X = <pattern copy>.copy() inside the candidate loop, whose positions are rotated with .apply
+    chk = None
+    for n in fn.own_nodes():
+        if isinstance(n, ast.Assign) and len(n.targets) == 1 and isinstance(n.targets[0], ast.Name) and isinstance(n.value, ast.Call) \
+                and call_name(n.value) == "copy" and len([a for a in fn.ancestors(n) if isinstance(a, ast.For)]) >= 2:
+            chk = n.targets[0].id
+    if chk is None:
+        raise AnalysisError("A6: per-candidate copy of the pattern (rotation re-check) not found in find_pattern_in_structure")
+
+    def mentions_chk(e):
+        return any(isinstance(x, ast.Attribute) and x.attr == "positions" and isinstance(x.value, ast.Name) and x.value.id == chk
+                   for x in ast.walk(expand(fn, e, stop_names=[chk])))
+    # accepted list: appends guarded (positively) by a test that reads the checked copy's positions
     acc = []
+    gate = None
     for c in calls_in(fn):
         if isinstance(c.func, ast.Attribute) and c.func.attr == "append" and isinstance(c.func.value, ast.Name):
             for t, pol, kind in norm_guards(fn, c):
-                if pol and any(x is gate for x in ast.walk(t)):
+                if pol and mentions_chk(t):
                     acc.append(c)
+                    gate = t
     if len(acc) != 1:
         raise AnalysisError("A6: expected one append gated by the rotation re-check, found %d" % len(acc))
     G = acc[0].func.value.id
@@ -618,10 +632,33 @@ def A6_rotation_gate(repo, clause):
     cand_loop, group_loop = inner[0], inner[1]
     # every append to G is gated
     for c in method_calls_on(fn, G, "append"):
-        gated = any(pol and any(x is gate for x in ast.walk(t)) for t, pol, k in norm_guards(fn, c))
+        gated = any(pol and t is gate for t, pol, k in norm_guards(fn, c))
         obs.append(Ob("A6", clause, fn, c, gated,
                       "append to the accepted list %s is %scontrol-dependent on the rotation re-check %s"
                       % (G, "" if gated else "NOT ", ast.unparse(gate)[:70]), slot="gated-append"))
+    # the re-check is a closeness test with the caller's tolerance, on quantities of the same length dimension
+    ge = expand(fn, gate, stop_names=[chk])
+    from .common import length_degree
+    tol_ok = False
+    tol_detail = "no tolerance found in the re-check"
+    closeness_calls = [x for x in ast.walk(ge) if isinstance(x, ast.Call) and call_name(x) in CLOSENESS]
+    if closeness_calls:
+        cc = closeness_calls[0]
+        tol = kwarg(cc, "atol")
+        tol_ok = tol is not None and isinstance(tol, ast.Name) and tol.id == "atol" and "atol" in fn.params
+        tol_detail = "closeness call with atol=%s" % (ast.unparse(tol) if tol is not None else "(library default; positional tolerance is rtol)")
+    else:
+        cmps = [x for x in ast.walk(ge) if isinstance(x, ast.Compare) and len(x.ops) == 1 and isinstance(x.ops[0], (ast.Lt, ast.LtE, ast.Gt, ast.GtE))]
+        for x in cmps:
+            sides = [x.left, x.comparators[0]]
+            tside = [sd for sd in sides if any(isinstance(y, ast.Name) and y.id == "atol" for y in ast.walk(sd))]
+            oside = [sd for sd in sides if sd not in tside]
+            if len(tside) == 1 and len(oside) == 1:
+                dt, do = length_degree(fn, tside[0]), length_degree(fn, oside[0])
+                upper = (x.left is oside[0] and isinstance(x.ops[0], (ast.Lt, ast.LtE))) or (x.left is tside[0] and isinstance(x.ops[0], (ast.Gt, ast.GtE)))
+                tol_ok = dt is not None and do is not None and dt == do and upper
+                tol_detail = "comparison `%s`: deviation has length dimension %s, tolerance side has %s (must agree), upper bound=%s" % (ast.unparse(x)[:70], do, dt, upper)
+    obs.append(Ob("A6", clause, fn, gate, tol_ok, "rotation re-check uses the caller's absolute tolerance: %s" % tol_detail, slot="gate-tolerance"))
     # G is local to one group (initialised inside the group loop, outside the candidate loop)
     ginit = [n for n in fn.own_nodes() if isinstance(n, ast.Assign) and any(isinstance(t, ast.Name) and t.id == G for t in n.targets)]
     ok = bool(ginit) and all(group_loop in list(fn.ancestors(n)) and cand_loop not in list(fn.ancestors(n)) for n in ginit)
@@ -639,21 +676,13 @@ def A6_rotation_gate(repo, clause):
     v = acc[0].args[0]
     obs.append(Ob("A6", clause, fn, acc[0], isinstance(v, ast.Name) and v.id == idxname,
                   "accepted list stores the candidate number of the enumerate loop over %s" % ast.unparse(cands), slot="accepted-is-candidate-index"))
-    # gate arguments: candidate positions vs. checked copy; copy goes ROTATE < TRANSLATE
-    a0, a1 = gate.args[0], gate.args[1]
-    chk = None
-    for a in (a0, a1):
-        if isinstance(a, ast.Attribute) and a.attr == "positions" and isinstance(a.value, ast.Name):
-            chk = a.value.id
-            other = a1 if a is a0 else a0
-    if chk is None:
-        raise AnalysisError("A6: cannot find the checked pattern copy among the re-check's arguments")
-    oe = expand(fn, other, stop_names=[idxname])
-    uses_all = any(isinstance(n, ast.Subscript) and isinstance(n.value, ast.Name) and n.value.id == _all_positions_name(fn)
-                   for n in ast.walk(oe))
+    # gate operands: the candidate's own image positions vs. the checked copy's positions
+    allp = _all_positions_name(fn)
+    ge2 = expand(fn, gate, stop_names=[chk, idxname])
+    uses_all = any(isinstance(n, ast.Subscript) and isinstance(n.value, ast.Name) and n.value.id == allp for n in ast.walk(ge2))
     obs.append(Ob("A6", clause, fn, gate, uses_all,
-                  "re-check compares the candidate's own image positions (%s) with the rotated+translated pattern copy %s.positions"
-                  % (ast.unparse(oe)[:80], chk), slot="gate-operands"))
+                  "re-check compares the candidate's own image positions (from %s) with the rotated+translated pattern copy %s.positions"
+                  % (allp, chk), slot="gate-operands"))
     # pattern copy: chk = <pattern>.copy() ; chk.positions = q.apply(chk.positions) ; chk.translate(cand[k])
     body_paths = loop_paths(fn, cand_loop)
     rotq = None
@@ -693,8 +722,11 @@ def A6_rotation_gate(repo, clause):
                         n_rot_append += 1
                         if c.args and isinstance(c.args[0], ast.Name):
                             qdefs_at_append = (c.args[0].id, frozenset(map(id, fn.rd.defs_at(n, c.args[0].id))))
-                if c is gate:
-                    seq.append("CHECK")
+            if isinstance(n, ast.stmt) and not (isinstance(n, ast.Assign) and any(isinstance(t, ast.Attribute) and t.attr == "positions" for t in n.targets)):
+                if any(isinstance(x, ast.Attribute) and x.attr == "positions" and isinstance(x.value, ast.Name) and x.value.id == chk
+                       and isinstance(x.ctx, ast.Load) for e2 in header_exprs(n) for x in ast.walk(e2)):
+                    if not seq or seq[-1] != "CHECK":
+                        seq.append("CHECK")
         want = ["CREATE", "ROTATE", "TRANSLATE", "CHECK"]
         obs.append(Ob("A6", clause, fn, cand_loop, seq == want,
                       "candidate-loop path #%d: checked copy goes through %s (required %s)" % (npth, " < ".join(seq), " < ".join(want)),
